@@ -142,8 +142,13 @@ def side_case(seed):
             m = min(m, 40)
             x = rand_x(rng, d, m, 'float')
             dout = d if which in ('cm', 'fm') else rng.randint(1, 3)
+            singular = which == 'kb' and m >= 2 and rng.random() < 0.35
+            if singular:        # repeated snapshots: exactly singular Gram matrix, the least-squares branch of mandy_kb
+                for _ in range(rng.randint(1, max(1, m // 2))):
+                    a_, b_ = rng.sample(range(m), 2)
+                    x[:, a_] = x[:, b_]
             y = np.array([[rng.uniform(-1, 1) for _ in range(m)] for _ in range(dout)])
-            desc.update(p=p, m=m, regime=regime, nfeat=nfeat)
+            desc.update(p=p, m=m, regime=regime, nfeat=nfeat, singular=singular)
             xs, ys = x.copy(), y.copy()
             if which == 'cm':
                 tabs = cm_tables(x, phi)
@@ -153,12 +158,28 @@ def side_case(seed):
                 xi = reg.mandy_fm(x, y, phi, threshold=0.0, add_one=add_one)
             else:
                 tabs = [np.array([[float(basis[i][k](x[:, j])) for j in range(m)] for k in range(len(basis[i]))]) for i in range(p)]
-                z = reg.mandy_kb(x, y, basis)
+                try:
+                    z = reg.mandy_kb(x, y, basis)
+                except np.linalg.LinAlgError as e:
+                    return 'mandy_kb raised %r (Gram matrix %s)' % (e, 'singular: repeated snapshots' if singular else 'regular'), desc
             if not (np.array_equal(x, xs) and np.array_equal(y, ys)):
                 return 'data matrices modified', desc
             P = psi_matrix(tabs)
             sv = np.linalg.svd(P, compute_uv=False)
-            if sv[-1] < 1e-6 * sv[0]:            # the property quantifies over thresholds below the smallest relevant ratio
+            if singular:
+                # fitted values of the minimum-norm solution: projection of y onto the row space of Psi
+                # the kernel variant works with Psi^T Psi: its accuracy is cond(Psi)^2 eps on the non-zero part; only
+                # well-separated spectra (non-zero singular values above 1e-3, the rest at rounding level) are judged
+                if np.any((sv > 1e-13 * sv[0]) & (sv <= 1e-3 * sv[0])):
+                    desc['skipped'] = 'ill-conditioned beyond the repeated snapshots'
+                    return None, desc
+                fit_ref = y @ np.linalg.pinv(P, rcond=1e-9) @ P
+                fit_kb = z @ (P.T @ P)
+                err = float(np.max(np.abs(fit_kb - fit_ref)))
+                if z.shape != (dout, m) or err > 1e-6 * (1 + float(np.max(np.abs(fit_ref)))):
+                    return 'kernel-based coefficients (singular Gram matrix) do not reproduce the least-squares fitted values: max err %.2e' % err, desc
+                return None, desc
+            if sv[-1] < (1e-3 if which == 'kb' else 1e-6) * sv[0]:     # thresholds below the smallest relevant ratio; kb squares the condition number
                 desc['skipped'] = 'ill-conditioned'
                 return None, desc
             ref = y @ np.linalg.pinv(P)           # dout x nfeat : Xi^T
